@@ -92,6 +92,12 @@ theorem GoType.fields?_size : (t : GoType) → (fs : Fields) → t.fields? = som
   | .prim _, _, h | .slice _, _, h | .ptr _, _, h | .map _ _, _, h | .chan _, _, h | .func _, _, h | .array _ _, _, h => by
     simp [GoType.fields?] at h
 
+theorem GoType.fields?_of_ptr : (t : GoType) → t.kind = .ptr → t.fields? = none
+  | .named _ u, h => by simpa [GoType.fields?] using u.fields?_of_ptr (by simpa [GoType.kind] using h)
+  | .struct _, h => by simp [GoType.kind] at h
+  | .prim _, _ | .slice _, _ | .ptr _, _ | .map _ _, _ | .chan _, _ | .func _, _ | .array _ _, _ => by
+    simp [GoType.fields?]
+
 theorem pathLookup_nil (t : GoType) : pathLookup t [] = some (0, t) := by simp [pathLookup]
 
 /-- One step of a selector path, as a relation. -/
